@@ -68,7 +68,7 @@ func gen(rng *rand.Rand, w *vh.World, repo string, n int) tcase {
 		return tc // plain push (valid or with missing references, depending on the repository state)
 	}
 	// a mutation on top
-	switch k := rng.Intn(14); k {
+	switch k := rng.Intn(15); k {
 	case 0: // truncated body, addressed by tag or by the digest of the truncated bytes
 		cut := 1 + rng.Intn(len(mm.Raw)-1)
 		tc.body = mm.Raw[:cut]
@@ -187,6 +187,28 @@ func gen(rng *rand.Rand, w *vh.World, repo string, n int) tcase {
 		tc.class, tc.must = "trailing-bytes", -1
 		if tc.tag == "" {
 			tc.ref = vh.DigestOf("sha256", tc.body)
+		}
+		tc.query = ""
+	case 14: // a reference whose digest is no digest at all: nothing of that name can exist in the repository
+		var obj map[string]any
+		_ = json.Unmarshal(mm.Raw, &obj)
+		bad := []string{"sha256:zz", "sha256:" + strings.Repeat("0", 63), "md5:d41d8cd98f00b204e9800998ecf8427e", "sha256:" + strings.Repeat("A", 64), "sha256", "sha999:" + strings.Repeat("0", 64), strings.Repeat("0", 64)}[rng.Intn(7)]
+		ref := map[string]any{"mediaType": vh.MTLayer, "digest": bad, "size": 3}
+		switch {
+		case mm.Index:
+			ref["mediaType"] = vh.MTImage
+			obj["manifests"] = append(obj["manifests"].([]any), ref)
+		case rng.Intn(2) == 0:
+			obj["layers"] = append(obj["layers"].([]any), ref)
+		default:
+			ref["mediaType"] = vh.MTConfig
+			obj["config"] = ref
+		}
+		b, _ := json.Marshal(obj)
+		tc.body = b
+		tc.class, tc.must = "malformed-reference-digest", -1
+		if tc.tag == "" {
+			tc.ref = vh.DigestOf("sha256", b)
 		}
 		tc.query = ""
 	case 11: // config missing: point config at an absent digest
@@ -407,5 +429,5 @@ func main() {
 	r.Require("accepted", 300)
 	r.Require("refused", 300)
 	r.RequireDistinct("classes", 40)
-	r.Finish("histories of 25-45 manifest pushes: valid manifests and 12 mutation classes (truncated, not JSON, unsupported / parameterised / absent / inconsistent Content-Type, shape inconsistent with type, hostile reference, digest mismatch in path or parameter, extra or missing references, references only in another repository) into empty, populated and referrer-heavy repositories, both stores; complete snapshot compared after every push; a case is one push, distinct = (class, repository state, by tag/digest)", "pushes", "classes")
+	r.Finish("histories of 25-45 manifest pushes: valid manifests and 14 mutation classes (truncated, references with a malformed digest, not JSON, unsupported / parameterised / absent / inconsistent Content-Type, shape inconsistent with type, hostile reference, digest mismatch in path or parameter, extra or missing references, references only in another repository) into empty, populated and referrer-heavy repositories, both stores; complete snapshot compared after every push; a case is one push, distinct = (class, repository state, by tag/digest)", "pushes", "classes")
 }
